@@ -590,7 +590,7 @@ fn t4_content_any_bool_int() {
 #[kani::stub(std::hash::RandomState::new, random_state_new)]
 #[kani::stub(std::intrinsics::catch_unwind, catch_unwind_stub)]
 #[kani::stub(std::vec::Vec::try_reserve, vec_try_reserve_cut)]
-#[kani::stub(std::vec::Vec::with_capacity, vec_with_capacity)]
+#[kani::stub(std::vec::Vec::with_capacity, vec_with_capacity_check_cut)]
 #[kani::stub(std::vec::Vec::push, vec_push_cut)]
 fn t4_content_any_hdr() {
     let buf: [u8; 6] = kani::any();
@@ -669,7 +669,7 @@ macro_rules! t5_hdr {
         #[kani::proof]
         #[kani::unwind(12)]
         #[kani::stub(std::hash::RandomState::new, random_state_new)]
-        #[kani::stub(std::vec::Vec::with_capacity, vec_with_capacity)]
+        #[kani::stub(std::vec::Vec::with_capacity, vec_with_capacity_check_cut)]
         #[kani::stub(std::vec::Vec::try_reserve, vec_try_reserve_cut)]
         #[kani::stub(std::vec::Vec::push, vec_push_cut)]
         #[kani::stub(std::collections::HashMap::with_capacity, hashmap_with_capacity)]
